@@ -1,0 +1,29 @@
+//go:build verif
+
+package drafty
+
+// Contracts for the verification machinery in /verif (comment-only; build tag verif).
+
+// C13: message content is client input and is rendered for notification previews in goroutines without recover: no
+// format span, entity key or length may drive the conversion out of bounds (including by wrapping around).
+//@ func (s *span) styleToSpan(in *style) (err error)
+//@   requires [C13] s != nil && in != nil
+//@   modifies inferred
+//@   safe
+//@   nooverflow
+
+// sort.Slice applied to the list of spans only permutes it (trusted): no nil element appears.
+//@ func sortSpansModel(x []*span)
+//@   models sort.Slice
+//@   modifies x[*]
+//@   ensures [C13] (forall j int :: 0 <= j && j < len(x) ==> old(x[j]) != nil) ==> (forall k int :: 0 <= k && k < len(x) ==> x[k] != nil)
+
+//@ func toTree(drafty *document) (res *node, err error)
+//@   requires [C13] drafty != nil && drafty.gc != nil
+//@   modifies inferred
+//@   safe
+//@   loop 1
+//@     invariant [C13] no_nil_span: forall k int :: 0 <= k && k < len(spans) ==> spans[k] != nil
+//@   loop 2
+//@     invariant [C13] no_nil_span: forall k int :: 0 <= k && k < len(spans) ==> spans[k] != nil
+//@     invariant [C13] no_nil_kept: forall k int :: 0 <= k && k < len(filtered) ==> filtered[k] != nil
